@@ -113,13 +113,14 @@ def generate(rng, tier):
         b = rand_digits(rng, size, rng.choice(["ones", "rand", "sparse"])) if size else []
         cases.append("h.schoolbook_add %s %s %s" % (D(a), D(b), N(size)))
         cases.append("h.schoolbook_sub %s %s %s" % (D(a), D(b), N(size)))
-    return cases
+    import extra_cases          # API-audit additions (docs/API_COVERAGE.md); produced after the original cases
+    return cases + extra_cases.c01(rng, tier)
 
 def nontrivial(case):
     return nontrivial_default(case)
 
 # ---- in-Coq cross-check of the extraction -------------------------------------------------
-COQ_IMPORTS = "Base X86 AddSub"
+COQ_IMPORTS = "Base X86 AddSub ExtraOrd"
 
 def coq_term(case, model):
     toks = case.split(" ")
@@ -140,6 +141,10 @@ def coq_term(case, model):
     if op in ("i.add", "i.sub"):
         f = "iadd" if op == "i.add" else "isub"
         return "%s addsub %s %s" % (f, coq_bigint(a[0]), coq_bigint(a[1])), coq_result(model)
+    if op in ("i.checked_add", "i.checked_sub"):     # API-audit additions (ExtraOrd.v)
+        return "%s addsub %s %s" % (op[2:].replace("checked", "ichecked"), coq_bigint(a[0]), coq_bigint(a[1])), coq_result(model, some=True)
+    if op == "h.sub2rev":
+        return two("sub2rev"), coq_result(model)
     if op == "h.add2c":
         return two("add2c addsub"), coq_result(model)
     if op == "h.sub2":
